@@ -1,4 +1,5 @@
 import MypyVerif.Proofs.Reach
+import MypyVerif.Gen.ReachTables
 /-!
 # C12 (version / platform tests) — what mypy decides statically is the run-time value on the target
 
@@ -11,6 +12,22 @@ The full statement `version_test_exact` is **false** (finding F4): `not_version_
 predicate `f4Shape` is exact — inside it mypy's answer is always the wrong one (`f4_always_wrong`).
 -/
 namespace Reach
+
+/-! ## the model's finite tables are the ones in the source (regenerated on every check) -/
+
+/-- Every entry of the tables that translate/reach_tables.py reads from, or tabulates by running,
+    mypy/reachability.py (`inverted_truth_mapping`, `reverse_op`, the 25 + 25 operand pairs of the `or` / `and`
+    branches, `fixed_comparison` per ordering, the special names) is what the model computes. -/
+theorem tables_match_source :
+    Gen.leavesOk = true ∧
+    (Gen.invertPairs.length = 5 ∧ Gen.invertPairs.all (fun p => invert p.1 == p.2) = true) ∧
+    (Gen.reverseKeys = 6 ∧ Gen.reversePairs.length = 6 ∧ Gen.reversePairs.all (fun p => reverseOp p.1 == p.2) = true) ∧
+    (Gen.orEntries.length = 25 ∧ Gen.orEntries.all (fun e => orTable e.1 e.2.1 == e.2.2) = true) ∧
+    (Gen.andEntries.length = 25 ∧ Gen.andEntries.all (fun e => andTable e.1 e.2.1 == e.2.2) = true) ∧
+    (Gen.fixedEntries.length = 18 ∧ Gen.fixedEntries.all (fun e => ofBool (opHolds e.1 e.2.1) == e.2.2) = true) ∧
+    Gen.nameEntries.all (fun e =>
+      nameValue e.1 { major := 3, minor := 12, platform := "linux", alwaysTrue := ["ATN"], alwaysFalse := ["AFN"] } == e.2) = true := by
+  decide
 
 /-! ## sys.version_info tests -/
 
